@@ -60,14 +60,18 @@ type State struct {
 	held    map[string]bool
 	ghostOK bool
 	entry   *State // snapshot at function entry (for old())
+	acq     *State // snapshot right after the most recent lock acquisition (for acq())
 	path    []int  // block indices visited in the top frame (for naming / debugging)
 	// known facts to dedupe no-panic obligations: term strings known non-nil
 	nonnil map[string]bool
+	pcSet  map[string]bool
+	qtag   map[string]string
+	loadNames map[string]*Term
 	epoch  int // generation of lazily named memory / map arrays (bumped by havocAll)
 }
 
 func (s *State) clone() *State {
-	ns := &State{e: s.e, next: s.next, entry: s.entry, ghostOK: s.ghostOK, epoch: s.epoch}
+	ns := &State{e: s.e, next: s.next, entry: s.entry, acq: s.acq, ghostOK: s.ghostOK, epoch: s.epoch}
 	ns.frames = make([]*Frame, len(s.frames))
 	for i, f := range s.frames {
 		ns.frames[i] = f.clone()
@@ -81,6 +85,18 @@ func (s *State) clone() *State {
 		ns.maps[k] = v
 	}
 	ns.pc = append(make([]*Term, 0, len(s.pc)+8), s.pc...)
+	ns.qtag = make(map[string]string, len(s.qtag))
+	for k, v := range s.qtag {
+		ns.qtag[k] = v
+	}
+	ns.loadNames = make(map[string]*Term, len(s.loadNames))
+	for k, v := range s.loadNames {
+		ns.loadNames[k] = v
+	}
+	ns.pcSet = make(map[string]bool, len(s.pcSet))
+	for k := range s.pcSet {
+		ns.pcSet[k] = true
+	}
 	ns.clos = make(map[string]*closureVal, len(s.clos))
 	for k, v := range s.clos {
 		ns.clos[k] = v
@@ -118,16 +134,34 @@ func (s *State) snapshot() *State {
 
 func (s *State) top() *Frame { return s.frames[len(s.frames)-1] }
 
-func (s *State) assume(t *Term) {
+func (s *State) assume(t *Term) { s.assumeTagged(t, "") }
+
+// assumeTagged records where a (quantified) assumption came from, so that
+// proofs can hide the ones they do not need.
+func (s *State) assumeTagged(t *Term, tag string) {
 	if t == nil || t.IsTrue() {
 		return
 	}
 	if t.op == "and" {
 		for _, a := range t.args {
-			s.assume(a)
+			s.assumeTagged(a, tag)
 		}
 		return
 	}
+	if tag != "" && hasQuantifier(t) {
+		if s.qtag == nil {
+			s.qtag = map[string]string{}
+		}
+		s.qtag[t.String()] = tag
+	}
+	key := t.String()
+	if s.pcSet == nil {
+		s.pcSet = map[string]bool{}
+	}
+	if s.pcSet[key] {
+		return
+	}
+	s.pcSet[key] = true
 	s.pc = append(s.pc, t)
 }
 
@@ -157,7 +191,7 @@ func (s *State) memOf(k Kind) *Term {
 
 func (e *Engine) zeroLeaf(sl Slot) *Term {
 	switch sl.K {
-	case KI:
+	case KI, KY:
 		return IntLit(0)
 	case KB:
 		return TFalse
@@ -197,6 +231,7 @@ func (s *State) assumeWF(v Value) {
 	if v.cell != nil {
 		return
 	}
+	s.assumeBlockTypes(v.T, v.L)
 	lay := s.e.lay.Of(v.T)
 	for i, sl := range lay {
 		l := v.L[i]
@@ -205,7 +240,7 @@ func (s *State) assumeWF(v Value) {
 		}
 		switch sl.Role {
 		case RPlain:
-			if sl.K == KI && sl.Basic != nil {
+			if (sl.K == KI || sl.K == KY) && sl.Basic != nil {
 				if lo, hi, ok := intRange(sl.Basic); ok {
 					s.assume(Le(BigLit(lo), l))
 					s.assume(Le(l, BigLit(hi)))
@@ -262,10 +297,27 @@ func (s *State) loadAt(blk, off *Term, t types.Type) Value {
 			in = Select(s.memOf(sl.K), blk)
 			inner[sl.K] = in
 		}
-		v.L[i] = Select(in, Add(off, IntLit(int64(i))))
+		v.L[i] = s.nameLoad(Select(in, Add(off, IntLit(int64(i)))))
 	}
 	s.assumeWF(v)
 	return v
+}
+
+// nameLoad gives a loaded leaf a short name (keeps queries small).
+func (s *State) nameLoad(t *Term) *Term {
+	if t.op != "select" {
+		return t
+	}
+	key := t.String()
+	if s.loadNames == nil {
+		s.loadNames = map[string]*Term{}
+	}
+	if c, ok := s.loadNames[key]; ok {
+		return c
+	}
+	c := s.define("ld", t)
+	s.loadNames[key] = c
+	return c
 }
 
 func (s *State) storeAt(blk, off *Term, v Value) {
@@ -291,7 +343,7 @@ func (s *State) storeAt(blk, off *Term, v Value) {
 
 // havocBlock replaces the whole contents of a block (all kinds).
 func (s *State) havocBlock(blk *Term) {
-	for _, k := range []Kind{KI, KB, KS, KR} {
+	for _, k := range allKinds {
 		if k == KR {
 			continue
 		}
@@ -315,4 +367,38 @@ func (s *State) bumpNext() {
 	n := s.e.sy.Fresh("next", SInt)
 	s.assume(Ge(n, s.next))
 	s.next = n
+}
+
+// assumeBlockTypes adds allocation-type facts for pointers and slices inside a value.
+func (s *State) assumeBlockTypes(t types.Type, leaves []*Term) {
+	switch u := t.Underlying().(type) {
+	case *types.Pointer, *types.Slice:
+		if leaves[0].op == "int" {
+			return
+		}
+		if f := s.e.blockTypeFact(t, leaves[0], leaves[1]); f != nil {
+			s.assume(f)
+		}
+	case *types.Struct:
+		off := 0
+		for i := 0; i < u.NumFields(); i++ {
+			n := s.e.lay.Size(u.Field(i).Type())
+			s.assumeBlockTypes(u.Field(i).Type(), leaves[off:off+n])
+			off += n
+		}
+	case *types.Tuple:
+		off := 0
+		for i := 0; i < u.Len(); i++ {
+			n := s.e.lay.Size(u.At(i).Type())
+			s.assumeBlockTypes(u.At(i).Type(), leaves[off:off+n])
+			off += n
+		}
+	}
+}
+
+// allocTyped allocates a block and records its allocation type.
+func (s *State) allocTyped(t types.Type) *Term {
+	b := s.allocBlock()
+	s.assume(Eq(s.e.btype(b), s.e.allocTypeID(t)))
+	return b
 }
